@@ -21,15 +21,21 @@ Sem(r) ==
     [] r.kind = "combine"   -> Combine(r.agg, r.ins, r.p.simple, r.p.reindexBlockwise, r.p.nanKeepsNaN)
     [] r.kind = "aggregate" -> AggregateSem(r.agg, r.ins, r.p)
 
+\* C06: the index block zipped with an array block is the GLOBAL arange cut like the array
+IndexBlockOk(r) ==
+  (r.kind = "chunk" /\ r.hasidx) => r.idx = [i \in 1..Len(r.vals) |-> r.offset + i - 1]
+
 Ok(r) ==
-  IF r.kind = "aggregate" THEN ResultMatches(Sem(r), r.out) ELSE IRMatches(Sem(r), r.out)
+  /\ IndexBlockOk(r)
+  /\ IF r.kind = "aggregate" THEN ResultMatches(Sem(r), r.out) ELSE IRMatches(Sem(r), r.out)
 
 Init == l = 1
 
 Next ==
   /\ l <= Len(TraceLog)
   /\ LET r == TraceLog[l] IN
-     IF Ok(r) THEN TRUE ELSE PrintT(<<"FAIL", r.id, {r.kind}, Sem(r)>>)
+     IF Ok(r) THEN TRUE
+     ELSE PrintT(<<"FAIL", r.id, (IF IndexBlockOk(r) THEN {r.kind} ELSE {r.kind, "index-block"}), Sem(r)>>)
   /\ l' = l + 1
 
 Spec == Init /\ [][Next]_l
